@@ -31,6 +31,21 @@ def unwinding_cancels_events_on_all_paths(m, ca, pp):
     return res["paths"] > 0 and res["bad"] == 0
 
 
+def final_cancel_ok(m):
+    """(ok, text): the unwinding routine ends with a wildcard cancel of every pending event whose SUBJECT is the process,
+    on every path (shared with C05 / C07, whose eviction rules rely on it)"""
+    ca = m.need("cmi_process_cancel_awaiteds")
+    cx = FuncCtx(m, ca)
+    pp = ca.params[0]["name"]
+    pc = [y for y in walk(ca.body) if y["kind"] == "CallExpr" and callee_ref(y) == "cmb_event_pattern_cancel"]
+    if len(pc) != 1:
+        return False, "%d pattern cancels" % len(pc)
+    a = [cx.canon(z) for z in kids(pc[0])[1:]]
+    ok = a[1] == pp and re.search(r"18446744073709551615|ANY|-1", a[0]) is not None and \
+        re.search(r"18446744073709551615|ANY|-1", a[2]) is not None and unwinding_cancels_events_on_all_paths(m, ca, pp)
+    return bool(ok), "(%s)" % ", ".join(a)
+
+
 def rules(rep, m):
     SIG = common.signal_table(m)
     may_yield = m.reaches({"cmi_coroutine_transfer"})
